@@ -35,6 +35,7 @@
 #include <xercesc/util/StringPool.hpp>
 #include <xercesc/util/XMLInitializer.hpp>
 #include <xercesc/util/OutOfMemoryException.hpp>
+#include <xercesc/util/VerifHooks.hpp>
 
 namespace XERCES_CPP_NAMESPACE {
 
@@ -120,6 +121,7 @@ RangeToken* RangeTokenMap::getRange(const XMLCh* const keyword,
 
     RangeTokenElemMap* elemMap = fTokenRegistry->get(keyword);
     RangeToken* rangeTok = elemMap->getRangeToken(complement);
+    VERIF_EVS("Acc", "gr_fast", "obj,c,rw,val", (long long)elemMap, complement, 0, rangeTok != 0);
 
     if (!rangeTok)
     {
@@ -127,6 +129,7 @@ RangeToken* RangeTokenMap::getRange(const XMLCh* const keyword,
 
         // make sure that it was not created while we were locked
         rangeTok = elemMap->getRangeToken(complement);
+        VERIF_EVS("Acc", "gr_slow", "obj,c,rw,val", (long long)elemMap, complement, 0, rangeTok != 0);
 
         if (!rangeTok)
         {
@@ -146,7 +149,9 @@ RangeToken* RangeTokenMap::getRange(const XMLCh* const keyword,
                     if (rangeTok)
                     {
                         rangeTok = RangeToken::complementRanges(rangeTok, fTokenFactory, fTokenRegistry->getMemoryManager());
+                        VERIF_EVS("Acc", "gr_build", "obj,c,rw,val", (long long)elemMap, complement, 1, (long long)rangeTok);
                         elemMap->setRangeToken(rangeTok , complement);
+                        VERIF_EVS("Acc", "gr_pub", "obj,c,rw,val", (long long)elemMap, complement, 1, (long long)rangeTok);
                     }
                 }
             }
